@@ -54,6 +54,7 @@ void assume(const expr& f) {
   S().add(f);
   if (S().check() == z3::unsat) { std::cout << "REPLAY-INFEASIBLE assumption violated by the recorded inputs\n"; exit(4); }
 }
+void define(const expr& f) { S().add(f); }
 bool decide(const expr& f) {
   expr g = f.simplify();
   if (g.is_true()) return true;
@@ -80,6 +81,7 @@ bool check(const expr& f, const std::string& label) {
 }
 bool check_all(const std::vector<std::pair<expr, std::string> >& obs) { bool all = true; for (auto& o : obs) all = check(o.first, o.second) && all; return all; }
 void reach(const std::string&) {}
+void fresh_obligations(bool) {}
 void require(bool ok, const std::string& label) { ++g_checks; if (!ok) reproduced(label, ""); }
 void note(const std::string& k) { if (getenv("CONRT_NOTES")) std::cout << "NOTE " << k << "\n"; }
 void fact(const std::string& k, const std::string& v) { std::cout << "FACT " << k << "=" << v << "\n"; }
